@@ -789,8 +789,12 @@ YR_OBJECT* yr_object_dict_get_item(
   {
     yr_object_copy(dict->prototype_item, &result);
 
-    if (result != NULL)
-      yr_object_dict_set_item(object, result, key);
+    if (result != NULL &&
+        yr_object_dict_set_item(object, result, key) != ERROR_SUCCESS)
+    {
+      yr_object_destroy(result);
+      result = NULL;
+    }
   }
 
   return result;
